@@ -1084,6 +1084,27 @@ void AStarPathPrivate::search(ConnRef *lineRef, VertInf *src, VertInf *tar, Vert
         endPoints = lineRef->possibleDstPinPoints();
     }
     endPoints.push_back(tar->point);
+
+    // The turn-pruning optimisation below assumes that a segment of the
+    // route can always slide sideways until it either runs beside a shape
+    // edge or is in line with an endpoint.  This does not hold if a free
+    // connector endpoint may only be left or entered in some directions:
+    // the route may have to bend around the endpoint to reach its permitted
+    // side, on a line that is neither.  So don't prune in that case.
+    bool pruneTurns = true;
+    if (isOrthogonal)
+    {
+        VertInf *ends[2] = { src, tar };
+        for (size_t i = 0; i < 2; ++i)
+        {
+            if (ends[i]->id.isConnPt() && !ends[i]->id.isConnCheckpoint() &&
+                    (ends[i]->visDirections != ConnDirNone) &&
+                    (ends[i]->visDirections != ConnDirAll))
+            {
+                pruneTurns = false;
+            }
+        }
+    }
     
     // Heap of PENDING nodes.
     std::vector<ANode *> PENDING;
@@ -1345,7 +1366,7 @@ void AStarPathPrivate::search(ConnRef *lineRef, VertInf *src, VertInf *tar, Vert
                 }
             }
 
-            if (isOrthogonal && !(*edge)->isDummyConnection())
+            if (isOrthogonal && pruneTurns && !(*edge)->isDummyConnection())
             {
                 // Orthogonal routing optimisation.
                 // Skip the edges that don't lead to shape edges, or the 
